@@ -1010,6 +1010,16 @@ func (m *VM) doDatalog(rec *Rec, op *Op) {
 		defer func() {
 			if n := len(*orig.Facts()); n != len(facts)-late {
 				m.Violate(m.Plan.Property, "cloned-world-changed", "evaluating a clone changed the world it was cloned from", fmt.Sprintf("%d facts before, %d after", len(facts)-late, n))
+				return
+			}
+			// ... and is itself still a world like any other: evaluated now (same facts when nothing
+			// was added late), it reaches what its clone reached
+			if rec.Class == "ok" && late == 0 {
+				if e := orig.Run(syms); e == nil {
+					if got := strings.Join(d.BackFacts(orig.Facts()).Keys(), "\n"); got != rec.Strs["facts"] {
+						m.Violate(m.Plan.Property, "clone-and-original-disagree", "a world evaluated after its clone was evaluated ends with other facts than the clone", fmt.Sprintf("clone: %s\noriginal: %s", oneLine(rec.Strs["facts"]), oneLine(got)))
+					}
+				}
 			}
 		}()
 	}
